@@ -1496,6 +1496,26 @@ func UrlencodedBodyDecoder(body io.Reader, header http.Header, schema *openapi3.
 		return nil, err
 	}
 
+	// A field sent without text is the empty string where the schema asks for a string (the parameter
+	// decoders, which are at work here, read an empty text as "no value"), and an empty item is an item.
+	for name, prop := range schema.Value.Properties {
+		sent, ok := values[name]
+		if v, decoded := obj[name]; !ok || len(sent) == 0 || (decoded && !isNilValue(v)) || prop.Value == nil {
+			continue
+		}
+		switch {
+		case prop.Value.Type.Is("string") && sent[0] == "":
+			obj[name] = ""
+		case prop.Value.Type.Is("array") && prop.Value.Items != nil && prop.Value.Items.Value != nil && prop.Value.Items.Value.Type.Is("string") &&
+			(len(sent) > 1 || sent[0] == ""): // one field per item
+			items := make([]any, len(sent))
+			for i, item := range sent {
+				items[i] = item
+			}
+			obj[name] = items
+		}
+	}
+
 	// decodeSchemaConstructs skips properties it cannot parse (needed for anyOf/oneOf
 	// alternatives); a field that was sent for a property of the body schema itself
 	// and could not be parsed is an error, not an absent property.
